@@ -44,6 +44,25 @@ def instances(tier, rng):
                 r["wt"] = "int"
                 r["grp"] = g
                 groups.append(r)
+            # the epsilon variant with an ignored / zero-scaled element, and in node mode
+            g += 1
+            e = list(rng.choice(u["edges"]))
+            feat = rng.choice([{"ign": [e]}, {"escale": [[e, 0, 1]]}])
+            for var in ({}, {"eps": [1, 10]}, {"eps": [1, 2]}):
+                r = C.base(u, "MinErrorFlow")
+                r.update(feat)
+                r.update(var)
+                r["wt"] = "int"
+                r["grp"] = g
+                groups.append(r)
+            if rng.random() < 0.5:
+                g += 1
+                for var in ({}, {"eps": [1, 10]}):
+                    r = C.base(u, "MinErrorFlow", "node")
+                    r.update(var)
+                    r["wt"] = "int"
+                    r["grp"] = g
+                    groups.append(r)
             if u0.get("_dag") and rng.random() < 0.3:
                 r = C.base(u, "MinErrorFlow")
                 r["wt"] = "int"
